@@ -92,6 +92,11 @@ ODD_ATTRS = (
     ("m", "count", "ov"), ("m", "mcJc", "ov"), ("sSup", "argSz", "ov"), ("r", "sty", "ov"),
 )
 
+# every operand container an element can have (m:d: any number of m:e); a spec may leave any of them out altogether
+FULL_SLOTS = dict({"f": ("num", "den"), "sSub": ("e", "sub"), "sSup": ("e", "sup"), "sSubSup": ("e", "sub", "sup"), "rad": ("deg", "e"),
+                   "nary": ("sub", "sup", "e"), "d": ("e",), "func": ("fName", "e"), "bar": ("e",), "acc": ("e",)},
+                  **{k: tuple(dict.fromkeys(v)) for k, v in CONTAINERS.items()})
+
 RISKY = {
     "nary-chr-without-val",
     "d-delimiter-chr-without-val",
@@ -364,6 +369,9 @@ def _render1(n: dict, a: Analysis, nd: bool, collect: bool) -> str:
                 a.features.add(f"odd:{k}.{tag}")
     rs = lambda name_or_nodes: _render(name_or_nodes, a, nd, collect)
     if k == "m":
+        if collect and not n["rows"]:
+            a.features.add("no-child-element" if not o.get("pr") else "operand-absent")
+            a.unclaimed.add("m:no-rows")          # the converter recognises a matrix by its m:mr; nothing is documented for none
         rows = [" & ".join(rs(cell) for cell in row) for row in n["rows"]]
         return r"\begin{matrix}" + r" \\ ".join(rows) + r"\end{matrix}"
     S, marks = [], []                                     # rendered in XML order == output order
@@ -375,6 +383,11 @@ def _render1(n: dict, a: Analysis, nd: bool, collect: bool) -> str:
     for name, txt in S:
         by.setdefault(name, []).append(txt)
     g = lambda name: by.get(name, [""])[0]
+    if collect and any(nm not in by for nm in FULL_SLOTS[k]):
+        # an operand container that is not there contributes what an empty one does: nothing (process_element(None))
+        a.features.add("operand-absent")
+        if not n["s"] and not o.get("pr"):
+            a.features.add("no-child-element")
     if k == "f":
         return rf"\frac{{{g('num')}}}{{{g('den')}}}"
     if k == "sSup":
@@ -445,7 +458,7 @@ def _render1(n: dict, a: Analysis, nd: bool, collect: bool) -> str:
         right = ")" if end is None else ((")" if nd else "") if end == NOVAL else end)
         return left + ", ".join(by.get("e", [])) + right
     if k == "func":
-        name_nodes = n["s"][0][1]
+        name_nodes = next((ch for nm_, ch in n["s"] if nm_ == "fName"), [])
         name = g("fName")
         nm = name.strip()
         plain = all(x["k"] == "r" for x in name_nodes)
@@ -564,6 +577,16 @@ def ordered_once(runs: list[str], out: str):
 # --------------------------------------------------------------------------------------------------
 # control twins
 # --------------------------------------------------------------------------------------------------
+def fill_absent(spec: dict) -> dict:
+    """The same tree with every operand container that is left out present but empty (appended after the existing ones)."""
+    t = _copy(spec)
+    for n in walk(t["c"]):
+        if n["k"] in FULL_SLOTS:
+            have = {nm for nm, _ in n["s"]}
+            n["s"].extend([nm, []] for nm in FULL_SLOTS[n["k"]] if nm not in have)
+    return t
+
+
 def _copy(x):
     if isinstance(x, dict):
         return {k: _copy(v) for k, v in x.items()}
